@@ -21,6 +21,14 @@ for name, m in sorted(p.modules.items()):
         for x in ast.walk(st) if not isinstance(st, (ast.FunctionDef, ast.ClassDef, ast.AsyncFunctionDef)) else []:
             if isinstance(x, ast.Name) and isinstance(x.ctx, ast.Store):
                 d.setdefault(x.id, "v")
+    # class-level variables ("v", as Class.NAME)
+    for q, n in m.defs.items():
+        if q != "__dups__" and isinstance(n, ast.ClassDef):
+            for st in n.body:
+                if isinstance(st, (ast.Assign, ast.AnnAssign, ast.AugAssign)):
+                    for x in ast.walk(st):
+                        if isinstance(x, ast.Name) and isinstance(x.ctx, ast.Store):
+                            d.setdefault(q + "." + x.id, "v")
     out[name] = d
 # parameter lists and stored attribute names of the reference tree: a
 # parameter / attribute that is not in them was added since
